@@ -662,7 +662,7 @@ def run(ctx):
         res.count("corpus")
     n = C.Budget(ctx["tier"], 1000, 20000).n
     if ctx["widened"]:
-        n *= 4
+        n *= 2
     for idx in range(n):
         case = gen_case(ctx["seed"], idx, qu_ok=(idx % 2 == 1))
         run_case(res, case, ctx, acc)
